@@ -61,3 +61,12 @@ Theorem C17_beta_is_reciprocal_of_alpha : forall deg, (0 < deg < 180)%R ->
   (deg < 90 -> theta_beta deg = 1 / sin (rad deg))%R /\ (90 <= deg -> theta_beta deg = 1)%R.
 Proof. exact theta_beta_closed_form. Qed.
 Print Assumptions C17_beta_is_reciprocal_of_alpha.
+
+(* the regenerated get_alpha_vec: one entry per facet (row of W), entry i being get_alpha(i, W) *)
+From VOPy Require ExtraRefine.
+From VOPyGen Require Gen_extra.
+Theorem C17_alpha_vector_has_one_alpha_per_facet : forall (get_alpha : nat -> Q) (rows : nat),
+  length (Gen_extra.gen_alpha_vec get_alpha rows) = rows /\
+  forall i, (i < rows)%nat -> nth i (Gen_extra.gen_alpha_vec get_alpha rows) 0%Q = get_alpha i.
+Proof. exact ExtraRefine.gen_alpha_vec_spec. Qed.
+Print Assumptions C17_alpha_vector_has_one_alpha_per_facet.
